@@ -2,6 +2,7 @@ package main
 
 import (
 	"fmt"
+	"go/ast"
 	"strconv"
 	"go/token"
 	"go/types"
@@ -263,7 +264,40 @@ func (p *Program) verifyFunction(fc *FuncContract, fn *ssa.Function) *VC {
 			if aa.Where != "return" || (aa.Nth != 0 && aa.Nth != retIdx) {
 				continue
 			}
+			if aa.Target != "" {
+				t := aa.Target
+				after := strings.HasPrefix(t, "after-")
+				t = strings.TrimPrefix(t, "after-")
+				if !strings.HasPrefix(t, "loop") || !isDigits(t[4:]) {
+					x.contractError(fr, aa.Clause, fmt.Errorf("bad return selector %q", aa.Target))
+					continue
+				}
+				k, _ := strconv.Atoi(t[4:])
+				if k < 1 || k > len(fr.loops.headers) {
+					x.contractError(fr, aa.Clause, fmt.Errorf("no loop %d in %s", k, fc.Key()))
+					continue
+				}
+				h := fr.loops.headers[k-1]
+				if !(h.Dominates(ret.Block()) && !fr.loops.body[h][ret.Block()]) {
+					continue
+				}
+				if after && (fr.loops.inAnyLoop(ret.Block()) != nil || insideSourceLoop(fn, ret.Pos())) {
+					continue
+				}
+			}
 			env := x.bodyEnv(fr, n, rst, ret.Block())
+			baseLookup := env.lookup
+			rnames := resultNames(fc, fn.Signature)
+			env.lookup = func(name string, isCur bool) (Term, bool, error) {
+				for i, rn := range rnames {
+					if rn == name && i < len(results) {
+						r := results[i]
+						r.T = fn.Signature.Results().At(i).Type()
+						return r, true, nil
+					}
+				}
+				return baseLookup(name, isCur)
+			}
 			f, err := x.trBool(aa.Clause.Expr, env)
 			if err != nil {
 				x.contractError(fr, aa.Clause, err)
@@ -350,6 +384,11 @@ func (x *Exec) applyContract(c *callCtx, fc *FuncContract, sig *types.Signature,
 			return nil
 		}
 		if callee != nil {
+			pre := x.allocNow(c.st)
+			for _, h := range x.prog.modFreshList(callee) {
+				x.havocFresh(c.n, c.st, h, pre)
+			}
+			x.bumpAlloc(c.n, c.st)
 			return x.prog.modHeapsList(callee)
 		}
 		return nil
@@ -491,4 +530,28 @@ func isDigits(s string) bool {
 		}
 	}
 	return true
+}
+
+// insideSourceLoop: the position lies inside a for/range statement of the function's source.
+func insideSourceLoop(fn *ssa.Function, pos token.Pos) bool {
+	syn := fn.Syntax()
+	if syn == nil || !pos.IsValid() {
+		return false
+	}
+	found := false
+	ast.Inspect(syn, func(n ast.Node) bool {
+		if n == nil || found {
+			return false
+		}
+		switch n.(type) {
+		case *ast.ForStmt, *ast.RangeStmt:
+			if n.Pos() <= pos && pos < n.End() {
+				found = true
+			}
+		case *ast.FuncLit:
+			return false
+		}
+		return true
+	})
+	return found
 }
